@@ -158,6 +158,17 @@ CLAIMED = {
         technique="static analysis: loop-bound shape rule for neighbour offsets, closed-form calculus (sympy) on extracted summands "
         "with helper functions inlined",
     ),
+    "C04": dict(
+        text="Static analysis of the current source; structural necessary conditions only. Decides: row-level forward and back projection "
+        "use the same matrix elements under the same plane guard and accumulate value*operand with the roles of bin and voxel exchanged; "
+        "the matrix-based forward and back projectors issue the same row requests (loops, calls on matrix/symmetries/rows with the same "
+        "arguments) up to forward_project<->back_project; forward projection into a data set writes only set_related_viewgrams of its "
+        "subset and fill(0) under the zero flag; only the image-taking back_project wrapper starts a new target; the on-the-fly ray-tracing "
+        "projector's tangential loop starts at the smallest |tangential position| of the requested range in all three sign configurations "
+        "(case analysis). Linearity, adjointness, additivity and on-the-fly = matrix equality are numerical and NOT decided.",
+        technique="static analysis: dual sibling comparison of call skeletons, must-facts guards, who-may-call, sign-case evaluation of "
+        "an integer expression",
+    ),
 }
 
 NOT_APPLICABLE = {
